@@ -274,8 +274,6 @@ func (x *runner) oracle(flag string, v *V, js []byte, vreason string) {
 	switch {
 	case sreason == "" && (vreason == "" || isSoft(vreason)):
 		x.r.Fail("json-roundtrip", detail, map[string]string{"oracle": "json-roundtrip", "shape": "expressible", "outcome": outcome})
-	case strings.HasPrefix(sreason, "defect:"):
-		x.r.Fail("json-roundtrip", detail, map[string]string{"oracle": "json-roundtrip", "shape": strings.TrimPrefix(sreason, "defect:")})
 	default:
 		x.r.Count("excluded:" + orExpressible(sreason) + "/" + vreason)
 	}
